@@ -22,7 +22,10 @@ def has_transform(spec):
 
 
 def pure_ops(spec):
+    from histogrammar import defs
+
     ops = [("a+b", lambda a, b: [a + b]), ("b+a", lambda a, b: [b + a]),
+           ("combine(a,b)", lambda a, b: [defs.combine(a, b)]), ("combine(b,a)", lambda a, b: [defs.combine(b, a)]),
            ("zero", lambda a, b: [a.zero()]), ("copy", lambda a, b: [a.copy()]),
            ("toJson", lambda a, b: [a.toJson(), a.toJsonString()]),
            ("eq/hash/repr", lambda a, b: [a == b, a != b, b == a, hash(a), repr(a), a == a.copy()]),
@@ -407,7 +410,7 @@ def _tree(task):
     ops = [nm for nm, _ in pure_ops(spec)]
     for ha, hb in itertools.product(hists, hists):
         for opname in ops:
-            if opname not in ("a+b", "b+a", "eq/hash/repr") and hb is not hists[0]:
+            if opname not in ("a+b", "b+a", "combine(a,b)", "combine(b,a)", "eq/hash/repr") and hb is not hists[0]:
                 continue  # unary operations do not depend on b
             m = list(muts)
             for r, w in ha + hb:
